@@ -2,6 +2,7 @@
 import os, multiprocessing as mp, time, traceback
 
 WORKERS = int(os.environ.get("VP_WORKERS", "0")) or min(16, os.cpu_count() or 4)
+_POOL = None
 
 
 def _wrap(args):
@@ -26,19 +27,28 @@ def pmap(fn, jobs, deadline=None, workers=None, chunksize=1):
                 raise RuntimeError("worker failed:\n" + r)
             yield j, r
         return
-    ctx = mp.get_context("fork")
-    with ctx.Pool(workers) as pool:
-        it = pool.imap_unordered(_wrap_idx, [(fn, i, j) for i, j in enumerate(jobs)], chunksize)
-        try:
-            for i, st, r in it:
-                if st == "err":
-                    raise RuntimeError("worker failed:\n" + r)
-                yield jobs[i], r
-                if deadline and time.time() > deadline:
-                    pool.terminate()
-                    return
-        finally:
+    # One pool per process, forked at the first use (while the parent is still small) and reused: forking a parent that
+    # holds a large frontier for every level is slow and doubles memory.  Job functions must therefore be module level
+    # and jobs self-contained (nothing is inherited through globals set after the fork).
+    global _POOL
+    if _POOL is None:
+        _POOL = mp.get_context("fork").Pool(workers)
+    pool = _POOL
+    it = pool.imap_unordered(_wrap_idx, [(fn, i, j) for i, j in enumerate(jobs)], chunksize)
+    complete = False
+    try:
+        for i, st, r in it:
+            if st == "err":
+                raise RuntimeError("worker failed:\n" + r)
+            yield jobs[i], r
+            if deadline and time.time() > deadline:
+                return
+        complete = True
+    finally:
+        if not complete:
+            # queued work cannot be cancelled: drop the pool, the next call forks a new one
             pool.terminate()
+            _POOL = None
 
 
 def _wrap_idx(args):
